@@ -161,7 +161,7 @@ func lex(src string) ([]stok, error) {
 		}
 		if unicode.IsLetter(rune(c)) || c == '_' {
 			j := i
-			for j < len(src) && (unicode.IsLetter(rune(src[j])) || unicode.IsDigit(rune(src[j])) || src[j] == '_' || src[j] == '$' || (src[j] == '@' && j+1 < len(src) && unicode.IsDigit(rune(src[j+1])))) {
+			for j < len(src) && (unicode.IsLetter(rune(src[j])) || unicode.IsDigit(rune(src[j])) || src[j] == '_' || src[j] == '$' || (src[j] == '@' && j+1 < len(src) && (unicode.IsDigit(rune(src[j+1])) || strings.HasPrefix(src[j+1:], "pre")))) {
 				j++
 			}
 			toks = append(toks, stok{"ident", src[i:j], i})
@@ -190,6 +190,15 @@ func lex(src string) ([]stok, error) {
 			}
 			toks = append(toks, stok{k, src[i:j], i})
 			i = j
+			continue
+		}
+		if c == '`' {
+			j := strings.IndexByte(src[i+1:], '`')
+			if j < 0 {
+				return nil, fmt.Errorf("unterminated source-expression quote at %d", i)
+			}
+			toks = append(toks, stok{"ident", src[i : i+j+2], i})
+			i += j + 2
 			continue
 		}
 		if c == '"' {
